@@ -4,7 +4,7 @@ Confirms a seeded change in its scratch worktree (applies, builds, stable suite 
 passes without), then applies it to /repo, runs the given check (quick), restores /repo, and stores the
 change under /verif/seeded/<seed-id>/ with meta.json."""
 import json, os, re, shutil, subprocess, sys, glob
-ENV = dict(os.environ, GOFLAGS="-mod=mod", GOPROXY="off", NO_COLOR="1")
+ENV = dict(os.environ, GOFLAGS="-mod=mod", GOPROXY="off", NO_COLOR="1", VERIF_EVIDENCE_DIR="/tmp/verif-seed-evidence")
 ENV.pop("GOTOOLCHAIN", None)
 STABLE = "go test -vet=off -count=1 -run 'TestParser|Test_IsSymbol|Test_Markdown|TestGenerate|TestNode_|TestStack_' . ./markdown"
 def sh(cmd, cwd, timeout=900):
